@@ -273,13 +273,21 @@ type AbsEntry struct {
 	StrC string `json:"strc"`
 }
 type AbsCase struct {
-	Part    string     `json:"part"`
-	Entries []AbsEntry `json:"entries"`
-	Units   []int      `json:"units"`
-	Glyphs  []string   `json:"glyphs"`
-	Mode    string     `json:"mode"`
-	Init    string     `json:"init"`
-	Ops     []HOp      `json:"ops"`
+	Part    string      `json:"part"`
+	Entries []AbsEntry  `json:"entries"`
+	Units   []int       `json:"units"`
+	Glyphs  []string    `json:"glyphs"`
+	Mode    string      `json:"mode"`
+	Scripts []AbsScript `json:"scripts"`
+	Eq      []int       `json:"eq"`
+	Init    string      `json:"init"`
+	Ops     []HOp       `json:"ops"`
+}
+
+// AbsScript is the shape of one script of an abstract ScriptList (NameCodecGen.tla, part "scripts").
+type AbsScript struct {
+	Def   string   `json:"def"`   // none | empty | feat
+	Langs []string `json:"langs"` // empty | feat
 }
 
 var macHigh []int // code points of Mac bytes 128..255 (x/text)
@@ -583,6 +591,46 @@ func genNames(s *sink, tlcCases string) {
 		}
 		rng := vio.Rand(int64(1000 + i))
 		s.add(Case{Kind: "names", Info: concretise(rng, a)}, "")
+	}
+
+	// equal strings in different slots (NameCodecGen.tla, part "equal"): the ids in Eq carry one
+	// string, every other id of the family its own; on one platform or on both and in two Windows
+	// languages with the very same strings everywhere
+	eqIDs := []int{1, 2, 4, 6, 16, 17, 21, 22}
+	for i, a := range abs {
+		if a.Part != "equal" {
+			continue
+		}
+		r := vio.Rand(int64(5000 + i))
+		shared := makeString(r, 1, "ascii", nil, 40)
+		in := map[int]bool{}
+		for _, id := range a.Eq {
+			in[id] = true
+		}
+		vals := map[int][]int{}
+		for k, id := range eqIDs {
+			if in[id] {
+				vals[id] = shared
+			} else {
+				vals[id] = append(append([]int{}, shared...), 'a'+k) // distinct, and the shared string is a prefix
+			}
+		}
+		var e []Entry
+		add := func(p int, tag string) {
+			for _, id := range eqIDs {
+				e = append(e, Entry{P: p, T: tag, N: id, S: vals[id]})
+			}
+		}
+		if a.Mode == "mac" || a.Mode == "both" {
+			add(1, pickLang(r, 1, "m0"))
+		}
+		if a.Mode == "win" || a.Mode == "both" {
+			add(3, pickLang(r, 3, "w409"))
+		}
+		if a.Mode == "both" {
+			add(3, pickLang(r, 3, "wr1"))
+		}
+		s.add(Case{Kind: "names", Info: dedup(e)}, "")
 	}
 
 	// harness-made cases
